@@ -211,11 +211,17 @@ structure MergeRes where
   delta : Option Map
   flags : List Flag
 
-/-- `Swarm.merge(buf)` for a payload that carries subscription entries `r` (D5 repaired) -/
-def mergeStep (b : Broker) (r : Map) : MergeRes :=
+/-- `Swarm.merge(buf)` for a payload that carries subscription entries `r` (D5 repaired).
+The delta is a Go map: the order in which its entries are walked is not determined; `ord`
+stands for that order (the theorems hold for every permutation). -/
+def mergeStepOrd (ord : List Bytes → List Bytes) (b : Broker) (r : Map) : MergeRes :=
   let m := Lww.merge b.state r
-  let w := walk (fun k => has b.state k) { b with state := m.1 } (m.2.map Prod.fst)
+  let w := walk (fun k => has b.state k) { b with state := m.1 } (ord (m.2.map Prod.fst))
   { broker := w.1, delta := if m.2.isEmpty then none else some m.2, flags := w.2 }
+
+/-- the two walk orders the events of the cluster model can name -/
+def mergeStep (rev : Bool) (b : Broker) (r : Map) : MergeRes :=
+  mergeStepOrd (fun ks => if rev then ks.reverse else ks) b r
 
 /-! ### the unrepaired `Swarm.merge` (defect D5), for the refutation witnesses -/
 
@@ -394,8 +400,8 @@ inductive Ev where
   | pick (a b : PeerName) (src : PeerName)
   /-- the head message of connection a→b reaches `b`; the returned delta is relayed to `relay`
   (a subset of b's other neighbours, chosen by the schedule); `keep` = the message is delivered
-  again later (duplicate) -/
-  | deliver (a b : PeerName) (relay : List PeerName) (keep : Bool)
+  again later (duplicate); `rev` = the order in which the delta (a Go map) is walked -/
+  | deliver (a b : PeerName) (relay : List PeerName) (keep : Bool) (rev : Bool)
   /-- periodic `Gossip()` on link a→b -/
   | gossip (a b : PeerName)
   | linkDown (a b : PeerName)
@@ -451,7 +457,7 @@ def Cluster.step (c : Cluster) : Ev → Cluster × Res
               (c.setLink a b { l with bcasts := l.bcasts.filter (fun e => e.1 != src), wire := l.wire ++ [.bcast src m] },
                { picked := some (.bcast src m) })
           | none => (c, {})
-  | .deliver a b relay keep =>
+  | .deliver a b relay keep rev =>
       let l := c.link a b
       match l.wire, c.broker? b with
       | w :: rest, some br =>
@@ -459,7 +465,7 @@ def Cluster.step (c : Cluster) : Ev → Cluster × Res
           let to := relay.filter (fun x => x != a && x != b && (c.link b x).up)
           match w with
           | .gossip m =>
-              let r := mergeStep br m
+              let r := mergeStep rev br m
               let c := c.setBroker r.broker
               let c := match r.delta with
                 | some d => c.sendFrom b (.data d) to
@@ -467,7 +473,7 @@ def Cluster.step (c : Cluster) : Ev → Cluster × Res
               (c, { flags := r.flags, delta := r.delta })
           | .bcast src m =>
               if src == b then (c, {}) else
-              let r := mergeStep br m
+              let r := mergeStep rev br m
               let c := c.setBroker r.broker
               let c := match r.delta with
                 | some d => c.broadcastFrom b src d (to.filter (· != src))
